@@ -190,6 +190,18 @@ static void clear_block(int s) { if (slots[s].big) big_budget -= slots[s].us; me
 
 /* ------------------------------------------------------------------ allocation */
 static char* strsrc = NULL; static size_t strsrc_len = 0;
+/* strndup of an UNTERMINATED source: the first `strmax` characters lie right in front of an inaccessible page (reading source[strmax] faults) */
+static const char* strarg = NULL; static size_t strmax = 0;
+static char* str_edge(const char* src, size_t len) {
+  static uint8_t* region = NULL; const size_t rsz = (size_t)32 * 4096;
+  if (region == NULL) {
+    region = (uint8_t*)syscall(SYS_mmap, NULL, rsz + 4096, PROT_READ | PROT_WRITE, MAP_PRIVATE | MAP_ANONYMOUS, -1, 0);
+    if (region == (uint8_t*)MAP_FAILED) { region = NULL; return NULL; }
+    syscall(SYS_mprotect, region + rsz, (size_t)4096, PROT_NONE);
+  }
+  if (len == 0 || len > rsz) return NULL;
+  char* d = (char*)(region + rsz - len); memcpy(d, src, len); return d;
+}
 static void* do_alloc(int op, mi_heap_t* hp, size_t n, size_t cnt, size_t sz, size_t al, size_t off, int* rc, int* outkeep) {
   *rc = 0; *outkeep = 1;
   switch (op) {
@@ -212,7 +224,7 @@ static void* do_alloc(int op, mi_heap_t* hp, size_t n, size_t cnt, size_t sz, si
     case A_valloc: return mi_valloc(n);
     case A_pvalloc: return mi_pvalloc(n);
     case A_strdup: return mi_strdup(strsrc);
-    case A_strndup: return mi_strndup(strsrc, strsrc_len + 5);
+    case A_strndup: return mi_strndup(strarg, strmax);
     case A_new: return mi_new(n);
     case A_new_aligned: return mi_new_aligned(n, al);
     case A_new_nothrow: return mi_new_nothrow(n);
@@ -230,7 +242,7 @@ static void* do_alloc(int op, mi_heap_t* hp, size_t n, size_t cnt, size_t sz, si
     case A_heap_calloc_aligned: return mi_heap_calloc_aligned(hp, cnt, sz, al);
     case A_heap_calloc_aligned_at: return mi_heap_calloc_aligned_at(hp, cnt, sz, al, off);
     case A_heap_strdup: return mi_heap_strdup(hp, strsrc);
-    case A_heap_strndup: return mi_heap_strndup(hp, strsrc, strsrc_len + 5);
+    case A_heap_strndup: return mi_heap_strndup(hp, strarg, strmax);
     case A_heap_alloc_new: return mi_heap_alloc_new(hp, n);
     case A_heap_alloc_new_n: return mi_heap_alloc_new_n(hp, cnt, sz);
   }
@@ -273,6 +285,10 @@ static int op_alloc_ex(int op, size_t n, size_t al, size_t off, int hidx, int fi
     strsrc_len = n - 1; strsrc = (char*)realloc(strsrc, n);
     for (size_t i = 0; i + 1 < n; i++) strsrc[i] = (char)(1 + (vf_rand() % 255));
     strsrc[n - 1] = 0;
+    strarg = strsrc; strmax = strsrc_len + 5;
+    if ((op == A_strndup || op == A_heap_strndup) && n > 1 && vf_randn(2) == 0) {     /* exactly the first n-1 characters of an unterminated source */
+      char* e = str_edge(strsrc, n - 1); if (e != NULL) { strarg = e; strmax = n - 1; }
+    }
   }
   const char* cls = "ok";
   if (al > (16u << 20) && off != 0) cls = "bigalign-offset";   /* documented: offset must be 0 beyond half a segment */
@@ -1025,8 +1041,47 @@ static void emit_heaps(void) {
     nheapsnaps++;
   }
 }
+/* ---- arena tables (refinement level, ArenaTrace.tla / MiArenaValid.tla; the schedule is modelled in MiPurge.tla): at quiescent points
+   the bitmaps of every arena as index ranges, the arena's purge expiry and the global one relative to the allocator's clock, the arena
+   purge delay; `after` names the call that has just returned (collect / fcollect / op) */
+static long narenasnaps = 0;
+static void arena_bit_ranges(mi_bitmap_field_t* bm, size_t fields) {
+  int first = 1; long start = -1; size_t nbits = fields * MI_BITMAP_FIELD_BITS;
+  for (size_t i = 0; i <= nbits; i++) {
+    int bit = (bm != NULL && i < nbits) ? (int)((*(volatile size_t*)&bm[i / MI_BITMAP_FIELD_BITS] >> (i % MI_BITMAP_FIELD_BITS)) & 1) : 0;
+    if (bit && start < 0) start = (long)i;
+    if (!bit && start >= 0) { vf_logf("%s[%ld,%zu]", first ? "" : ",", start, i - 1); first = 0; start = -1; }
+  }
+}
+static long arena_rem(int64_t expire, int64_t now) { int64_t d = expire - now; if (d > 1000000000) d = 1000000000; if (d < -1000000000) d = -1000000000; return (long)d; }
+static void emit_arenas(const char* after) {
+  if (!seg_snap_on || (seg_quiet && !seg_quiet())) return;
+  const int64_t now = (int64_t)_mi_clock_now();
+  const int64_t gexp = *(volatile int64_t*)&mi_arenas_purge_expire;
+  long delay = mi_arena_purge_delay(); if (delay > 100000000) delay = 100000000; if (delay < -1) delay = -1;
+  const size_t n = *(volatile size_t*)&mi_arena_count;
+  vf_logf("{\"e\":\"arenas\",\"pid\":%d,\"after\":\"%s\",\"delay\":%ld,\"gset\":%s,\"grem\":%ld,\"arenas\":[", (int)getpid(), after, delay,
+          gexp != 0 ? "true" : "false", gexp != 0 ? arena_rem(gexp, now) : 0L);
+  int first = 1;
+  for (size_t i = 0; i < n && i < MI_MAX_ARENAS; i++) {
+    mi_arena_t* a = *(mi_arena_t* volatile*)&mi_arenas[i];
+    if (a == NULL) continue;
+    const int64_t ex = *(volatile int64_t*)&a->purge_expire;
+    vf_logf("%s{\"id\":%d,\"blocks\":%zu,\"bits\":%zu,\"pinned\":%s,\"excl\":%s,\"zero\":%s,\"set\":%s,\"rem\":%ld,\"inuse\":[", first ? "" : ",", (int)a->id, a->block_count,
+            a->field_count * MI_BITMAP_FIELD_BITS, a->memid.is_pinned ? "true" : "false", a->exclusive ? "true" : "false", a->memid.initially_zero ? "true" : "false", ex != 0 ? "true" : "false", ex != 0 ? arena_rem(ex, now) : 0L);
+    first = 0;
+    arena_bit_ranges(a->blocks_inuse, a->field_count);
+    vf_logf("],\"purge\":["); arena_bit_ranges(a->blocks_purge, a->field_count);
+    vf_logf("],\"abandoned\":["); arena_bit_ranges(a->blocks_abandoned, a->field_count);
+    vf_logf("],\"dirty\":["); arena_bit_ranges(a->blocks_dirty, a->field_count);
+    vf_logf("],\"committed\":["); arena_bit_ranges(a->blocks_committed, a->field_count);
+    vf_logf("]}");
+  }
+  vf_logf("]}"); vf_log_line_end();
+  narenasnaps++;
+}
 static void op_checkall(void) {
-  emit_segs(); emit_heaps();
+  emit_segs(); emit_heaps(); emit_arenas("op");
   vf_logf("{\"e\":\"checkall\",\"t\":0,\"obs\":[");
   int first = 1;
   for (int s = 0; s < MAXSLOTS; s++) if (slots[s].p) {
@@ -1124,7 +1179,8 @@ static void log_areas_list(void) {
   }
   vf_logf("]");
 }
-static void ev_areas(void) { vf_logf("{\"e\":\"areas\",\"t\":0,"); log_areas_list(); vf_logf("}"); vf_log_line_end(); }
+static void emit_arenas(const char* after);
+static void ev_areas(void) { vf_logf("{\"e\":\"areas\",\"t\":0,"); log_areas_list(); vf_logf("}"); vf_log_line_end(); emit_arenas("op"); }
 static void ev_mark(const char* what) { vf_logf("{\"e\":\"mark\",\"what\":\"%s\",", what); log_areas_list(); vf_logf("}"); vf_log_line_end(); }
 static long statm_pages(int field) {   /* 0 = size, 1 = resident */
   long v[2] = {0, 0}; FILE* f = fopen("/proc/self/statm", "r"); if (!f) return 0;
@@ -1146,6 +1202,7 @@ static void do_collect(int force) {
   log_call_begin("collect", 0, 0, force, 0, 0, 0, "ok", 0, 0); log_obs(-1, -1, 0); log_call_end();
   mi_collect(force);
   log_ret_begin("collect", &r); log_obs(-1, -1, 2); log_ret_end();
+  emit_arenas(force ? "fcollect" : "collect");
 }
 static void free_all_of_thread(int heapid_or_all) {
   for (int s = 0; s < MAXSLOTS; s++) if (slots[s].p && (heapid_or_all < 0 || slots[s].heap == heapid_or_all)) { op_free_slot(s, FR_free); maybe_clock(); }
@@ -1178,6 +1235,17 @@ static void* worker_main(void* arg) {
   if (w->in_b) mi_subproc_add_current_thread(vf_subproc_b);      /* (before the thread's first allocation) */
   vf_logf("{\"e\":\"tstart\",\"t\":%d,\"h\":%d}", w->t, w->heapid); vf_log_line_end();
   if (w->mode == 4) { do_collect(1); }                            /* a thread that only collects (adopts and releases what it may) */
+  else if (w->mode == 5) {                                        /* a thread whose FIRST allocator call is mi_heap_new (its metadata has to be mapped inside that call) */
+    int before = next_heap_id; heap_new_op();
+    if (next_heap_id != before) {
+      int hi = -1; for (int i = 1; i < MAXHEAPS; i++) if (hps[i].alive && hps[i].id == before) hi = i;
+      if (hi > 0) {
+        for (int j = 0; j < 3; j++) op_alloc_ex(A_heap_malloc, 3000 + 700 * (size_t)j, 0, 0, hi, 0);
+        for (int s = 0; s < MAXSLOTS; s++) if (slots[s].p && slots[s].heap == hps[hi].id) op_free_slot(s, FR_free);
+        heap_delete_op(hi);
+      }
+    }
+  }
   else if (w->mode != 2) alloc_many(w->count, w->lo, w->hi, w->mode == 0);
   int k = 0;
   if (w->mode == 0) { for (int s = 0; s < MAXSLOTS; s++) if (slots[s].p && slots[s].heap == w->heapid && (k++ % 2) == 0) op_free_slot(s, FR_free); }
@@ -1219,7 +1287,7 @@ static void workload_alloc_base(const char* wl) {
   else if (!strcmp(wl, "large")) { alloc_many(30, 8193, 131072, 1); alloc_many(24, 131073, 4u << 20, 0); alloc_many(3, 5u << 20, 15u << 20, 0); }
   else if (!strcmp(wl, "huge")) { alloc_many(2, 17u << 20, 40u << 20, 0); alloc_many(1, 70u << 20, 100u << 20, 0);
                                   op_alloc_ex(A_malloc_aligned, 3u << 20, 32u << 20, 0, 0, 0); op_alloc_ex(A_zalloc_aligned, 100000, 64u << 20, 0, 0, 0); alloc_many(20, 1, 100000, 1); }
-  else if (!strcmp(wl, "mt")) { alloc_many(80, 1, 20000, 1); run_worker(120, 1, 4096); run_worker(40, 4097, 300000); run_worker(2, 17u << 20, 20u << 20); }
+  else if (!strcmp(wl, "mt")) { run_worker_ex(0, 0, 0, 5, 0); alloc_many(80, 1, 20000, 1); run_worker(120, 1, 4096); run_worker(40, 4097, 300000); run_worker(2, 17u << 20, 20u << 20); }
   else if (!strcmp(wl, "giant")) {   /* objects of many arena blocks: ranges that cross the 64-block fields of the arena bitmaps (needs MIMALLOC_ARENA_RESERVE >= 4 GiB) */
                                   alloc_many(2, (size_t)600 << 20, (size_t)700 << 20, 0); alloc_many(1, (size_t)1100 << 20, (size_t)1300 << 20, 0); alloc_many(1, (size_t)40 << 20, (size_t)70 << 20, 0); alloc_many(10, 1, 100000, 1); }
   else if (!strcmp(wl, "reuse")) {   /* memory of freed multi-block objects is purged and then re-used for ordinary segments (their headers and page tables land on
@@ -1275,7 +1343,13 @@ static void c18_build_and_free(void) {
   /* phase 1: build up */
   if (!strcmp(pattern, "pages")) { alloc_many(200, 8000, 8192, 0); alloc_many(40, 30000, 32768, 0); }
   else if (!strcmp(pattern, "segments")) { alloc_many(100, 900000, 1048576, 0); }
-  else if (!strcmp(pattern, "huge")) { alloc_many(5, (size_t)17 << 20, (size_t)40 << 20, 0); }      /* single-block segments */
+  else if (!strcmp(pattern, "huge")) { alloc_many(5, (size_t)17 << 20, (size_t)40 << 20, 0);        /* single-block segments */
+                                       if (mi_option_get(mi_option_purge_delay) < 0) {      /* purging disabled: also the two places where huge blocks are reset directly */
+                                         int a_ = op_alloc_ex(A_malloc_aligned, (size_t)3 << 20, (size_t)32 << 20, 0, 0, 0);      /* over-aligned huge block: unused prefix */
+                                         int h_ = op_alloc_ex(A_malloc, (size_t)20 << 20, 0, 0, 0, 0);
+                                         if (h_ >= 0) { vf_free_in_thread = 1; op_free_slot(h_, FR_free); }                      /* huge block freed by another thread */
+                                         if (a_ >= 0) op_free_slot(a_, FR_free);
+                                       } }
   else { alloc_many(150, 8000, 8192, 0); alloc_many(70, 900000, 1048576, 0); alloc_many(100, 100, 1000, 0); }
   ev_areas();
   vf_clock_advance(3);
@@ -1315,8 +1389,37 @@ static void* c18_worker_main(void* arg) {
 #endif
   return NULL;
 }
+/* C18, pattern "starve" (a history found by TLC as a liveness counterexample of MiPurge with more arenas than the visit budget of
+   mi_arenas_try_purge): with one-block arenas (MIMALLOC_ARENA_RESERVE=65536, i.e. 64 KiB rounded up to one 32 MiB block) three 20 MiB objects occupy one arena each.  The
+   last one is freed and never used again; the other two are freed, purged by a non-forced collect after the delay, allocated again (in the
+   same arenas: first fit) and so on.  Every time the schedule fires, the two arenas of lower index have a due purge */
+static void run_c18_starve(long step_ms) {
+#if defined(VF_SHIM)
+  int h[3];
+  for (int i = 0; i < 3; i++) h[i] = op_alloc_ex(A_malloc, (size_t)20 << 20, 0, 0, 0, 0);
+  ev_areas(); vf_clock_advance(3);
+  if (h[2] >= 0) op_free_slot(h[2], FR_free);
+  ev_areas(); vf_clock_advance(1);
+  ev_mark("t0");
+  for (int k = 0; k < 12; k++) {
+    if (h[1] >= 0) op_free_slot(h[1], FR_free);
+    if (h[0] >= 0) op_free_slot(h[0], FR_free);
+    ev_areas();
+    vf_clock_advance(step_ms);
+    do_collect(0); ev_areas();
+    vf_clock_advance(1);
+    h[0] = op_alloc_ex(A_malloc, (size_t)20 << 20, 0, 0, 0, 0);
+    h[1] = op_alloc_ex(A_malloc, (size_t)20 << 20, 0, 0, 0, 0);
+    ev_areas();
+  }
+  ev_mark("c18check");
+#else
+  (void)step_ms;
+#endif
+}
 static void run_c18(const char* pattern, long step_ms) {
 #if defined(VF_SHIM)
+  if (!strcmp(pattern, "starve")) { run_c18_starve(step_ms); return; }
   c18_pattern = pattern; c18_step = step_ms;
   c18_abandoned_areas = c18_abandoned;
   if (c18_abandoned) {
